@@ -291,18 +291,40 @@ def run(ctx):
         from ..facts import strip_generics as _sg3
         o3 = ctx.anchor_one("R20.4", "coroutine body of project_origins::origins",
                             [f for f in facts.fns_matching(r"^project_origins::origins::\{closure#\d+\}$") if f.kind == "coroutine"])
-        en3 = _px3.Enum(interesting=lambda d: _sg3(d).endswith(("check_list", "DirList::obtain", "HashSet::insert", "Path::parent")))
+        en3 = _px3.Enum(interesting=lambda d: _sg3(d).endswith(("check_list", "DirList::obtain", "HashSet::insert", "Path::parent", "Path::ancestors")))
         CK = "check_list(await DirList::obtain(current))"
         bad3 = []
         n_it = 0
-        for q in en3.paths(thir.root(o3)):
+        ANC = "for Path::ancestors(AsRef::as_ref(path))"
+        paths3 = en3.paths(thir.root(o3))
+        by_iterator = any(e[0] == "loop" and e[2].replace("^", "") == ANC for q in paths3 for e in q.ev)
+        for q in paths3:
             if not (q.out == "val" and q.val == "origins"):
                 bad3.append("origins() ends with %s %s" % (q.out, q.val))
+            if by_iterator:
+                # the other spelling of the same walk: `for current in path.as_ref().ancestors()` (the path itself first, then every parent, to the root);
+                # nothing is inserted outside that loop
+                outside = [x for x in q.ev if x[0] == "call" and _sg3(x[1]).endswith(("HashSet::insert", "DirList::obtain", "Path::parent"))]
+                if outside or sum(1 for x in q.ev if x[0] == "loop") != 1:
+                    bad3.append("work outside the single ancestors() loop: %s" % _px3.show_events(outside)[:120])
             for e in q.ev:
                 if e[0] != "loop":
                     continue
                 for it in e[1]:
                     n_it += 1
+                    if by_iterator:
+                        names = [_sg3(x[1]).split("::")[-1] for x in it if x[0] == "call"]
+                        hit = None
+                        for x in it:
+                            if x[0] == "branch" and x[1].endswith(CK):
+                                hit = x[2] != _px3.split_not(x[1])[1]
+                        ins3 = [_px3.desc(x[2]["a"][1]) for x in it if x[0] == "call" and _sg3(x[1]).endswith("HashSet::insert")]
+                        ok = e[2].replace("^", "") == ANC and names[:2] == ["obtain", "check_list"] and ("loop-break",) not in it and "parent" not in names \
+                            and not any(x[0] == "assign" for x in it) \
+                            and ((hit is True and ins3 == ["ToOwned::to_owned(current)"]) or (hit is False and not ins3))
+                        if not ok:
+                            bad3.append(_px3.show_events(it)[:260])
+                        continue
                     seq = [(x[0], _sg3(x[1]).split("::")[-1] if x[0] == "call" else x[1]) for x in it if x[0] in ("call", "assign")]
                     names = [b for a, b in seq]
                     ok = names[:4] == ["parent", "current", "obtain", "check_list"] and any(x[0] == "assign" and x[1] == "current" and x[2] == "parent" for x in it) \
@@ -326,6 +348,14 @@ def run(ctx):
                            [f for f in facts.fns_matching(r"^project_origins::origins::\{closure#\d+\}$") if f.kind == "coroutine"])
         cfg = CFG(o)
         ins = call_sites(o, "std::collections::hash::set::HashSet::insert")
+        if call_sites(o, "std::path::Path::ancestors") and not call_sites(o, "std::path::Path::parent"):
+            # `for current in path.as_ref().ancestors()`: decided completely by the path form above (std's Ancestors is the argument, then each parent, to the root)
+            anc = call_sites(o, "std::path::Path::ancestors")
+            okarg = len(anc) == 1 and all(a.kind in ("arg",) or (a.kind == "upvar" and a.data == "path") for a in origins(o, anc[0][1].args[0], passthrough=VALUE_CALLS)) \
+                and bool(origins(o, anc[0][1].args[0], passthrough=VALUE_CALLS))
+            ctx.require(okarg and len(ins) == 1, "R20.4", "ancestors-of-argument", "the walk iterates Path::ancestors of the argument itself and has one insert site", o.loc(o.line),
+                        fail="origins() iterates the ancestors of something other than its argument")
+            raise Skip()
         ctx.floor("R20.4", "insert sites in origins()", len(ins), 2)
         allowed_memo = {}
 
